@@ -114,6 +114,8 @@ def check_case(case):
 
 
 def gen(r):
+    if r.random() < 0.04:
+        return oc.band_case(r, refine=r.random() < 0.6)      # overflowing objective values (F11, F13)
     n = r.choice((1, 1, 2, 2, 3, 3, 4, 5))
     spec = oc.boundary_spec(r, n) if r.random() < 0.55 else None
     case = oc.gen_case(r, n=n, spec=spec, refine=r.random() < 0.65, lim=r.choice([3, 5, 8, 17, 20, 40, 80, 150, 400]))
